@@ -151,3 +151,108 @@ def sample_of(T, v, **more):
     d = {'type': U.show_type(T)[:600], 'value': repr(v)[:400]}
     d.update(more)
     return d
+
+
+EMULATE = {
+    'BER': {'real-nr3-nodot', 'emptyable-optional', 'stray-eoo', 'real-default-float'},
+    'CER': {'real-nr3-nodot', 'emptyable-optional', 'stray-eoo', 'time-fraction-zeros', 'real-default-float'},
+    'DER': {'real-nr3-nodot', 'emptyable-optional', 'time-fraction-zeros', 'real-default-float'},
+}
+HARMLESS_FOR_ROUNDTRIP = {'real-nr3-nodot'}
+
+
+def encode_monitored(res, label, enc, obj, kw, T, v, codec, defMode, chunk, feats, case,
+                     harmless=HARMLESS_FOR_ROUNDTRIP):
+    """Call a pyasn1 encoder under the known-finding emulation oracle (DESIGN 2.7).
+
+    Returns (e, data, used): e = the bytes pyasn1 produced, data = bytes to feed decoder-side oracles
+    (== e outside every finding's zone, the reference's corrected rendering of pyasn1's sender choices
+    inside one), used = set of emulations that changed the output.  Returns None when a witness (known
+    finding or violation) has been recorded and the case must not be examined further."""
+    emu_raises = None
+    try:
+        want, used = R.like_pyasn1_used(T, v, codec, defMode, chunk, EMULATE[codec])
+    except R.EmuRaises as er:
+        emu_raises = er.args
+        want, used = None, {er.args[1]}
+    try:
+        e = enc(obj, **kw)
+    except Exception as ex:
+        c = H.classify_exception(ex)
+        sym = c if not isinstance(c, tuple) else 'leak:' + c[1]
+        if emu_raises and sym.startswith('leak:' + emu_raises[0] + '@'):
+            feats = set(feats) | {'emu:' + emu_raises[1]}
+            res.witness('%s:%s' % (label, emu_raises[1]), feats, case, ex)
+        else:
+            res.witness('%s:encode-raised:%s' % (label, sym), feats, case, ex)
+        return None
+    if not isinstance(e, bytes):
+        res.witness('%s:encode-returned-non-bytes' % label, feats, case, type(e))
+        return None
+    if emu_raises:
+        res.witness('%s:in-zone-output-differs-from-emulation' % label, feats, case,
+                    'emulation raises %r, library returned %s' % (emu_raises, e.hex()[:200]))
+        return None
+    bug = used - harmless
+    if bug:
+        zf = set(feats) | set('emu:' + u for u in used)
+        for u in bug:
+            res.see('in-zone:' + u)
+        if e != want:
+            res.witness('%s:in-zone-output-differs-from-emulation' % label, feats, case,
+                        'got %s want %s' % (e.hex()[:600], want.hex()[:600]))
+            return None
+        for u in bug:
+            res.witness('%s:%s' % (label, u), zf, case, e.hex()[:400])
+        data = R.like_pyasn1(T, v, codec, defMode, chunk, harmless)
+        return e, data, used
+    res.see('clean:' + label)
+    if e != want:
+        res.see('emulation-mismatch-out-of-zone')
+    return e, e, used
+
+
+STRUCTURAL_OCTETS = [0x00, 0x01, 0x02, 0x03, 0x04, 0x05, 0x06, 0x09, 0x0a, 0x0c, 0x13, 0x17, 0x18, 0x1f, 0x24,
+                     0x30, 0x31, 0x7f, 0x80, 0x81, 0x82, 0x84, 0xa0, 0xa1, 0xbf, 0xff]
+
+
+def mutate(rng, data, kinds=None):
+    """One random damage of a byte string -> (kind, bytes)."""
+    data = bytearray(data)
+    kind = rng.choice(kinds or ['flip', 'set', 'insert', 'delete', 'truncate', 'length', 'tag', 'splice', 'dup',
+                                'indef', 'zero-tail'])
+    n = len(data)
+    if n == 0:
+        return 'insert', bytes([rng.choice(STRUCTURAL_OCTETS)])
+    i = rng.randrange(n)
+    if kind == 'flip':
+        data[i] ^= 1 << rng.randrange(8)
+    elif kind == 'set':
+        data[i] = rng.choice(STRUCTURAL_OCTETS)
+    elif kind == 'insert':
+        data[i:i] = bytes(rng.choice(STRUCTURAL_OCTETS) for _ in range(rng.choice([1, 1, 2, 4])))
+    elif kind == 'delete':
+        del data[i:i + rng.choice([1, 1, 2, 4])]
+    elif kind == 'truncate':
+        del data[i:]
+    elif kind == 'length':
+        # rewrite what is probably a length octet near the front or at a random place
+        j = 1 if rng.random() < 0.5 and n > 1 else i
+        data[j:j + 1] = rng.choice([b'\x80', b'\x00', b'\x7f', b'\x81\x00', b'\x84\xff\xff\xff\xff', b'\x81\xff',
+                                    b'\x82\x00\x01', bytes([data[j] ^ 1]), b'\xff', b'\x88' + b'\x7f' * 8])
+    elif kind == 'tag':
+        j = 0 if rng.random() < 0.5 else i
+        data[j] = rng.choice([data[j] ^ 0x20, data[j] ^ 0x80, data[j] ^ 0x40, (data[j] & 0xe0) | 0x1f,
+                              rng.choice(STRUCTURAL_OCTETS)])
+    elif kind == 'splice':
+        j = rng.randrange(n)
+        a, b = min(i, j), max(i, j)
+        data[a:a] = data[a:b]
+    elif kind == 'dup':
+        data = data + data[:rng.randrange(n) + 1]
+    elif kind == 'indef':
+        data[i:i + 1] = b'\x80'
+        data += b'\x00\x00' * rng.choice([0, 1, 2])
+    elif kind == 'zero-tail':
+        data += b'\x00' * rng.choice([1, 2, 3, 4])
+    return kind, bytes(data)
